@@ -97,8 +97,11 @@ def specOf (j : Json) : SpecArg :=
 /-- `probe`: what `for_data` reads of the data (type module / qualname, accepting classes); the name of the
 class `for_data` picks is computed by the registry model over the GENERATED live classes -/
 def callOf (j : Json) : Call :=
-  Dispatch.callFor liveRegistry liveRegistry.classes (specOf (jval j "spec")) (jnat j "data") (dataOf (jval j "probe"))
-    (optNat (jval j "context")) (optNat (jval j "dropRows")) ((jarr j "overrides").map attrOf)
+  { Dispatch.callFor liveRegistry liveRegistry.classes (specOf (jval j "spec")) (jnat j "data") (dataOf (jval j "probe"))
+      (optNat (jval j "context")) (optNat (jval j "dropRows")) ((jarr j "overrides").map attrOf) with
+    -- a set the library creates itself is reported under identity 0 (the caller's set is 1);
+    -- `dropGrows`: PARAMETER, whether generating the parts one by one adds null rows to the drop set
+    freshDrop := 0, dropGrows := jbool j "dropGrows" }
 
 def requestJ (r : Request) : Json :=
   Json.mkObj [("mat", Json.str r.matName), ("data", natJ r.data), ("context", optNatJ r.context),
